@@ -21,7 +21,7 @@ ASSUMPTIONS = ['nothing else in the generated models refers to X (type names are
                'classes with class-scoped enums are not chosen for pybind (known finding D34)',
                'global-scope classes are not chosen for MATLAB unless D14 is repaired (known finding)']
 MIN_EVENTS = {'quick': {'triples': 250, 'blocks_compared': 2500}, 'thorough': {'triples': 5000, 'blocks_compared': 50000}}
-MATLAB_GLOBAL_OK = False  # D14: MATLAB ignore of a global-scope class crashes on the pinned tree (known finding)
+MATLAB_GLOBAL_OK = True   # ignoring a global-scope class (D14, repaired)
 
 
 def plan(tier, seed):
